@@ -240,7 +240,7 @@ def harnesses(tier):
                     if k == 0 and psl != "none":
                         continue
                     an.append(dict(shape=shape, herald=her, k=k, postsel=psl, two_inputs=(psl in ("none", "rule1") and k >= 1 and k + hp <= 3)))
-                    if k >= 1 and _space(n + nl, k + hp) <= 6:
+                    if (k >= 1 or hp >= 1) and _space(n + nl, k + hp) <= 6:
                         for counting in (True, False):
                             qs.append(dict(shape=shape, herald=her, k=k, postsel=psl, counting=counting))
                 if nl == 0:
